@@ -20,6 +20,19 @@ claim("C20", "DESIGN.md §5 C20",
       "The model of the pinned runner-up rule is refuted in Lean (scanPinned_violates). Model compared with the code on every run; brute-force oracle in exact arithmetic.",
       "The 1e-16 tolerance is modelled as exact equality (all generated values are exact dyadics); density compared as one correctly-rounded float division.")
 
+claim("C15", "DESIGN.md §5 C15",
+      "Lean 4 invariant proof by induction over call histories of the graph state machine (all three flavours) + differential correspondence after every call and invariant oracle on the real object",
+      "Proved for every finite history of add_node/add_arc/set_depot (base class and the sequence-based overrides): names unique, dict keys unique, every stored arc filed under the current positions of its own "
+      "endpoints and passing the timing filter; set_depot puts the depot first; add_arc succeeds iff stored iff the timing rule; raising calls leave the graph unchanged. The model of the pinned set_depot is refuted in Lean. "
+      "Model compared with the real object after every call (names, windows, arc dict in order, return value / error kind); object-identity invariant checked on the real graph.",
+      "Node objects are immutable after creation, so arcs are modelled by endpoint names; the identity check is in the oracle.")
+claim("C19", "DESIGN.md §5 C19",
+      "Lean 4 structural induction over expression trees (core Lean): rvs(build e) = evalE e with identical draw counters + differential correspondence with counting stub leaves",
+      "Proved for all expression trees over leaves and real constants on either side of + - * / and negation, all sample sizes and all leaf draws: the sampler object built by the operator overloads returns the expression applied "
+      "elementwise to the leaf draws, of length m, each leaf occurrence drawn exactly once in left-to-right order; the non-random helper returns its argument iff the length matches. "
+      "Model compared with the code on every run (arrays, draw counts); seeded scipy leaves compared with the same numpy operations.",
+      "Zero denominators excluded explicitly (numpy inf/nan vs totalised Rat division); float-inexact quotients are skipped and counted.")
+
 for _p in ["C02", "C03", "C04", "C05", "C06", "C07", "C08", "C09", "C10", "C11", "C12", "C13", "C14", "C15", "C16", "C17", "C18", "C19", "C20"]:
     if _p not in CLAIMED:
         NOT_YET[_p] = "check under construction in this round (see DESIGN.md §10 order of construction); not claimed until its command exists"
